@@ -180,12 +180,13 @@ def extract_checks(sql):
 ACT = {"NO ACTION": "no_action", "CASCADE": "cascade", "SET NULL": "set_null", "SET DEFAULT": "set_default", "RESTRICT": "restrict"}
 
 
-def read_catalog(conn):
+def read_catalog_raw(conn):
+    """physical catalog through PRAGMAs and sqlite_master, values as the engine reports them"""
     tables, indexes = {}, {}
     for name, sql in conn.execute("SELECT name, sql FROM sqlite_master WHERE type='table' AND name NOT LIKE 'sqlite_%' ORDER BY name").fetchall():
         cols = []
         for cid, cname, ctype, notnull, dflt, pk, hidden in conn.execute('PRAGMA table_xinfo("%s")' % name).fetchall():
-            cols.append([cname, (ctype or "").lower(), bool(notnull), norm_default(dflt), pk])
+            cols.append([cname, ctype or "", bool(notnull), dflt, pk])
         fkrows = collections.defaultdict(list)
         for fid, seq, rt, frm, to, on_up, on_del, _m in conn.execute('PRAGMA foreign_key_list("%s")' % name).fetchall():
             fkrows[fid].append((seq, rt, frm, to, on_up, on_del))
@@ -201,6 +202,34 @@ def read_catalog(conn):
             icols = [r[2] for r in conn.execute('PRAGMA index_info("%s")' % iname).fetchall()]
             indexes[iname] = [name, bool(uniq), icols]
     return {"tables": tables, "indexes": indexes}
+
+
+def normalize_catalog(raw):
+    """comparison form: types lower-cased, defaults as ("num", value) | ("txt", text)"""
+    tables = {}
+    for n, t in raw["tables"].items():
+        tables[n] = dict(t, cols=[[c[0], c[1].lower(), c[2], norm_default(c[3]), c[4]] for c in t["cols"]])
+    return {"tables": tables, "indexes": raw["indexes"]}
+
+
+def read_catalog(conn):
+    return normalize_catalog(read_catalog_raw(conn))
+
+
+G_ACT = {"no_action": "NoAction", "cascade": "Cascade", "set_null": "SetNull", "set_default": "SetDefault", "restrict": "Restrict"}
+
+
+def catalog_gallina(raw):
+    g, gl, go, gb = sqlparse.gstr, sqlparse.glist, sqlparse.gopt, sqlparse.gbool
+    ts = []
+    for n in sorted(raw["tables"]):
+        t = raw["tables"][n]
+        cols = gl(t["cols"], lambda c: "(mkCCol %s %s %s %s %d)" % (g(c[0]), g(c[1]), gb(c[2]), go(c[3]), c[4]))
+        fks = gl(t["fks"], lambda f: "(mkSFk %s %s %s (Some %s) (Some %s))" % (gl(f[0]), g(f[1]), gl(f[2]), G_ACT[f[3]], G_ACT[f[4]]))
+        chk = gl(t["checks"], lambda c: "(%s, %s)" % (g(c[0]), g(c[1])))
+        ts.append("(mkCTable %s %s %s %s %s)" % (g(n), cols, gb(t["autoinc"]), fks, chk))
+    ix = ["(mkCIndex %s %s %s %s)" % (g(n), g(v[0]), gb(v[1]), gl(v[2])) for n, v in sorted(raw["indexes"].items())]
+    return "(mkCat [%s] [%s])" % ("; ".join(ts), "; ".join(ix))
 
 
 def catalog_diff(exp, got):
@@ -290,9 +319,10 @@ def oracle_c02_history(recs, fk_on):
             if err:
                 cats.append({"error": {"action": err[0], "stmt": err[1], "flat": err[2], "message": err[3]}})
                 return {"step": k, "kind": "engine-error", "action": err[0], "stmt": err[1], "flat": err[2], "message": err[3], "sql": err[4]}, cats
-            got = read_catalog(conn)
-            cats.append({"catalog": got})
+            raw = read_catalog_raw(conn)
+            got = normalize_catalog(raw)
             diff = catalog_diff(expected_catalog(rec["post"]), got)
+            cats.append({"catalog": raw, "believed_ok": not diff})
             if diff:
                 left = [x for x in diff if x.startswith("leftover")]
                 return {"step": k, "kind": "leftover" if left and len(left) == len(diff) else "catalog-difference", "differences": diff}, cats
@@ -416,3 +446,44 @@ def classify(d, idx_map, per_shard, row_idxs, classifiers, stem="cases_sql", mod
     for i, b in zip(rows, vflib.parse_eval_outputs(out)):
         res[i] = dict(zip(classifiers, vflib.parse_bool_list(b)))
     return res
+
+
+# ------------------------------------------------------------------------------------------------ K-eng-sqlite
+EMPTY_CAT = {"tables": {}, "indexes": {}}
+
+
+def eng_cases(hist_recs, cats, fk_on):
+    """Gallina eng_case terms for the migrations of one history that libsqlite3 actually executed"""
+    out = []
+    pre = EMPTY_CAT
+    for rec, cat in zip(hist_recs, cats):
+        if "error" in cat:
+            real = "(Err %d)" % cat["error"]["flat"]
+            ok = "false"
+        else:
+            real = "(Ok %s)" % catalog_gallina(cat["catalog"])
+            ok = sqlparse.gbool(cat["believed_ok"])
+        out.append((rec["_idx"], "(mkEngCase %s %s\n   %s\n   %s\n   %s %s)" % (
+            sqlparse.gbool(fk_on), catalog_gallina(pre), rec["g_baseline"], rec["g_actions"], real, ok)))
+        if "catalog" in cat:
+            pre = cat["catalog"]
+    return out
+
+
+def run_keng(cases, d, per_shard):
+    """cases: [(row idx, term)]. Returns dict(mismatches={pos: (row idx, [subchecks])}, errors)"""
+    terms = [t for _, t in cases]
+    for si in range(0, len(terms), per_shard):
+        body = "From VV.SQLITE Require Import Corr.\n\nDefinition shard_base : nat := %d.\nDefinition cases : list eng_case := [\n%s\n].\nEval vm_compute in eng_mismatches_from shard_base cases.\n" % (
+            si, ";\n".join(terms[si:si + per_shard]))
+        open(os.path.join(d, "cases_eng_%03d.v" % (si // per_shard)), "w").write(body)
+    res = vflib.run_shards(LAYER, d, "cases_eng_*.v")
+    mism, errors = {}, []
+    for f, rc, o, dt in res:
+        if rc != 0:
+            errors.append({"shard": os.path.basename(f), "log": o[-1500:]})
+            continue
+        blocks = vflib.parse_eval_outputs(o)
+        for (k, subs) in vflib.parse_nat_pairs(blocks[0] if blocks else ""):
+            mism[k] = (cases[k][0], subs)
+    return {"mismatches": mism, "errors": errors, "cases": len(cases)}
